@@ -256,6 +256,105 @@ def checker_factory(modname):
     return checker, rels
 
 
+def completion_symbolic(modname, rels, lengths, tier):
+    """the converse direction as an obligation: for every payload over the alphanumeric alphabet, at every length at which the
+    format accepts anything, the payload completed with the generated check character(s) never reaches a `raise
+    InvalidChecksum` of validate().  -> (obligations, findings, undecided)"""
+    from ..explore import explore_closure, witness_string
+    mod = importlib.import_module(modname)
+    vfn = front.func_of(mod.validate, Func)
+    obligations, findings, undecided = [], [], []
+    if modname in ALTERNATIVES or modname in MULTI_SCHEME:
+        return obligations, findings, undecided
+    t_mod = time.time()
+    for n in lengths:
+        if not isinstance(n, int) or n < 1:
+            continue
+        oid = 'len=%s/completion' % n
+        if time.time() - t_mod > (100 if tier == 'quick' else 900):
+            obligations.append((oid, 'undecided', 'module time limit'))
+            continue
+        app = []
+        for g, arg_e, pos_e, op, var in rels:
+            pos = indices(pos_e, var.split(':')[0], n)
+            arg = indices(arg_e, var.split(':')[0], n)
+            if not pos or not arg or op not in ('NotEq', 'Eq') or any(i >= n or i < -n for i in pos + arg):
+                continue
+            app.append((g, [i % n for i in arg], [i % n for i in pos]))
+        if not app:
+            continue
+        if len({tuple(pos) for g, arg, pos in app}) != len(app):
+            obligations.append((oid, 'undecided', 'several generators for one check position'))
+            continue
+        ordered, rest = [], list(app)
+        while rest:
+            free = [r_ for r_ in rest if not any(set(o[2]) & set(r_[1]) for o in rest if o is not r_)]
+            if not free:
+                ordered = None
+                break
+            ordered += free
+            rest = [r_ for r_ in rest if r_ not in free]
+        if ordered is None:
+            obligations.append((oid, 'undecided', 'cyclic generator dependencies'))
+            continue
+        gfs = [(front.func_of(g, Func), g, arg, pos) for g, arg, pos in ordered]
+
+        def run(I, ctx, n=n, gfs=gfs):
+            chars = [ctx.fresh_char(ALNUM, 'y') for _ in range(n)]
+            for gf, g, arg, pos in gfs:
+                try:
+                    ck = I.call(gf, [simp(FixedStr([chars[i] for i in arg]))], {}, {}, gf.module)
+                except Raise:
+                    return 'skip'          # the generator rejects the payload: not a well-formed payload
+                if not isinstance(ck, (str, FixedStr)) or len(tostr(ck)) != len(pos):
+                    return 'skip'
+                for i, c in zip(pos, tostr(ck).chars):
+                    chars[i] = c
+            ctx.completed = FixedStr(chars)
+            return I.call(vfn, [FixedStr(chars)], {}, {}, vfn.module)
+        try:
+            paths, status = explore_closure(run, budget=3000 if tier == 'quick' else 20000, time_limit=40 if tier == 'quick' else 400, cur_n=n)
+        except (Unsupported, z3.Z3Exception) as u:
+            obligations.append((oid, 'undecided', 'outside the subset: %s' % str(u)[:80]))
+            continue
+        st = 'proved' if status == 'ok' else 'undecided'
+        for ctx, r in paths:
+            if not (isinstance(r, Raise) and r.cls.__name__ == 'InvalidChecksum'):
+                continue
+            try:
+                res, m = ctx.check_final()
+            except z3.Z3Exception:
+                res, m = z3.unknown, None
+            if res == z3.unsat:
+                continue
+            if res == z3.unknown:
+                st = 'undecided'
+                continue
+            y0 = witness_string(ctx, ctx.completed, m or ctx.s.model())
+            # replay: complete the payload of the model with the real generator(s)
+            try:
+                ch = list(y0)
+                for gf, g, arg, pos in gfs:
+                    ck = g(''.join(ch[i] for i in arg))
+                    for i, c in zip(pos, ck):
+                        ch[i] = c
+                y = ''.join(ch)
+                rv = call_real(modname + ':validate', [y])
+                rep_ = rv[0] == 'raise' and rv[1] == 'InvalidChecksum' and mod.compact(y) == y
+            except Exception:      # noqa: B902
+                y, rv, rep_ = y0, ('error',), False
+            if rep_:
+                st = 'refuted'
+                findings.append(dict(property='C05', module=modname, kind='completion', key='completion', count=1, input=y, opts={}, today=None,
+                                     approx=False, real=list(rv[:2]), reproduced=True))
+                break
+            st = 'undecided'
+        obligations.append((oid, st, '%d paths' % len(paths)))
+        if st == 'refuted':
+            break
+    return obligations, findings, undecided
+
+
 def _task(arg):
     modname, lengths, tier = arg
     try:
@@ -263,7 +362,11 @@ def _task(arg):
         if not rels:
             return dict(module=modname, norel=True, findings=[], obligations=[], undecided=[], samples=[], stats={})
         sw = accept.AcceptSweep(modname, lengths, ch, tier, 150 if tier == 'quick' else 900, 'C05')
-        return sw.run()
+        res = sw.run()
+        ob, fi, un = completion_symbolic(modname, rels, lengths, tier)
+        res['obligations'] = list(res['obligations']) + ob
+        res['findings'] = list(res['findings']) + fi
+        return res
     except Exception as e:      # noqa: B902
         import traceback
         return dict(module=modname, crash='%s: %s' % (type(e).__name__, str(e)[:200]), tb=traceback.format_exc()[-1200:])
@@ -374,9 +477,9 @@ def check(prop, tier, args):
             mods.append(m.__name__)
     if args.modules:
         mods = [m for m in mods if m in args.modules]
-    units = accept.accepting_units(modules=mods if args.modules else None)
+    units = accept.accepting_units(modules=mods)
     items = [(m, sorted({n for o, n in units.get(m, []) if n != 'long'}), tier) for m in mods if m in units]
-    res = accept.run_modules(_task, items, 400 if tier == 'quick' else 2000)
+    res = accept.run_modules(_task, items, 300 if tier == 'quick' else 2000)
     norel = []
     for m in sorted(res):
         r = res[m]
@@ -400,13 +503,18 @@ def check(prop, tier, args):
             key = 'C05/%s/%s' % (m, oid)
             if st == 'skipped':
                 seen.setdefault(key, 'skipped')
-            elif st == 'proved' and seen.get(key) != 'refuted':
-                seen[key] = 'proved'
-            else:
+            elif st == 'undecided':
+                if seen.get(key) != 'refuted':
+                    seen[key] = 'undecided:' + str(detail)
+            elif st == 'proved' and seen.get(key) is None or seen.get(key) == 'proved':
+                seen[key] = 'proved' if st == 'proved' else 'refuted'
+            elif st != 'proved':
                 seen[key] = 'refuted'
         for key, st in seen.items():
             if st == 'proved':
                 rep.add(key, 'proved')
+            elif st.startswith('undecided'):
+                rep.add(key, 'undecided', detail=st[10:])
         if r['undecided']:
             rep.add('C05/%s/other' % m, 'undecided', detail='; '.join(sorted({u['why'][:60] for u in r['undecided']}))[:200])
         for s in r.get('samples', []):
@@ -416,5 +524,5 @@ def check(prop, tier, args):
     rep.extra['documented_alternatives'] = ALTERNATIVES
     rep.assumptions += ['the generator/payload/position relation is the comparison found in validate() (modules where validate() delegates the '
                         'comparison, e.g. checksum()==constant formats, have no such relation and are listed)',
-                        'completion is bounded (mutated corpus payloads)']
+                        'completion: symbolic per accepting length over alphanumeric payloads (canonical presentations); mutated corpus payloads in addition (bounded)']
     return rep.finish()
